@@ -59,6 +59,34 @@ def py_copies(k, male_ref, female, kl):
     raise ValueError(kl)
 
 
+def first_row_class(first, build, chrom, lo, hi):
+    """C01_mixed_naming: on the purity-adjusted path the FIRST row's style decides which names are sex chromosomes
+    ('chrX'/'chrY' if it starts with 'chr', else 'X'/'Y'); any other name -- including X / Y in the other style -- is an
+    autosome.  PAR membership is inclusive at both ends (C01_par_inclusive)."""
+    xn, yn = ('chrX', 'chrY') if first.startswith('chr') else ('X', 'Y')
+    b = build.lower() if build else None
+    if chrom == xn:
+        return 'parX' if (b and any(a <= lo and hi <= z for a, z in PAR[b]['X'])) else 'X'
+    if chrom == yn:
+        return 'parY' if (b and any(a <= lo and hi <= z for a, z in PAR[b]['Y'])) else 'Y'
+    return 'auto'
+
+
+def mixed_expectation(cfg, first, row):
+    """(expected absolute copy number, expected rewritten ratio or None) of a row of an arbitrarily named table"""
+    k, p, hapx, female = cfg['ploidy'], cfg['purity'], cfg['hapx'], cfg['female']
+    e = exp2(row['log2'])
+    if purity_path(cfg):
+        kl = first_row_class(first, cfg['build'], row['chrom'], row['start'], row['end'])
+        r, x = py_copies(k, hapx, female, kl)
+        a = max((r * e - x * (1 - F(p))) / F(p), F(0))
+        shift = (kl == 'X' and hapx) or kl == 'Y'
+        return a, max(a / k, F(1.0e-3)) * (2 if shift else 1)
+    low = row['chrom'].lower()
+    r = k // 2 if (low in ('chry', 'y') or (hapx and low in ('chrx', 'x'))) else k
+    return r * e, None
+
+
 # --------------------------------------------------------------------------------------
 # running the code
 
@@ -308,6 +336,22 @@ def check_table(ck, cfg, rows, code, model, consistent=True, count=True, tol=vli
                     ck.violation('cn is not the nearest integer to r*2^log2', case_of(cfg, rows, i), code=cn,
                                  expected=float(row['r'] * e), clause='C01_nearest')
                     bad = True
+        if not consistent and (cfg['build'] is None or cfg['build'].lower() in PAR):
+            exp_a, exp_ratio = mixed_expectation(cfg, rows[0]['chrom'], row)
+            fr = exp_a - math.floor(exp_a)
+            if cn != round(exp_a):          # round() of a Fraction: half to even, as numpy
+                if abs(float(fr - HALF)) <= AMBIG * max(1.0, float(exp_a)):
+                    ck.float_ambiguous += 1
+                else:
+                    # outside the property's quantifier (consistent naming): a deviation from the proved characterisation of
+                    # the current behaviour is a broken tie, not a violated clause
+                    ck.tie_break('inconsistently named table: cn is not what the first row\'s naming style implies (C01_mixed_naming)',
+                                 case_of(cfg, rows, i), code=cn, model=float(exp_a))
+                    bad = True
+            if exp_ratio is not None and (not (new_v == new_v) or not vlib.close(2.0 ** new_v, exp_ratio, tol)):
+                ck.tie_break('inconsistently named table: rewritten log2 is not what the first row\'s naming style implies (C01_mixed_naming)',
+                             case_of(cfg, rows, i), code=new_v, model=math.log2(exp_ratio))
+                bad = True
         if not pp and (new_v != row['log2'] if tol == vlib.TOL else abs(new_v - row['log2']) > 1e-5 * max(1.0, abs(row['log2']))):
             ck.violation('log2 changed on the no-purity path', case_of(cfg, rows, i), code=new_v, expected=row['log2'],
                          clause='C01_rescaled_log2')
@@ -458,7 +502,12 @@ def check_cli(ck, scratch, count, spawn_count):
 
 def load_corpus():
     p = os.path.join(vlib.VERIF, 'corpus', 'c01.json')
-    return json.load(open(p)) if os.path.exists(p) else []
+    return [c for c in (json.load(open(p)) if os.path.exists(p) else []) if c.get('stream') != 'do_call']
+
+
+def load_docall_corpus():
+    p = os.path.join(vlib.VERIF, 'corpus', 'c01.json')
+    return [c for c in (json.load(open(p)) if os.path.exists(p) else []) if c.get('stream') == 'do_call']
 
 
 def corpus_tables():
@@ -487,7 +536,7 @@ def run(ck, scratch):
                'holding, for every class instance (2 autosomes, X, Y, bins inside / exactly on / one base off / straddling / '
                'between each PAR), a row per n in 0..12 whose log2 is computed from the property\'s (r, x) table, plus rows with '
                'random log2 in [-30,30], fixed values and values 1e-6/1e-4 either side of every rounding and clipping boundary; '
-               'edge stream: inconsistently named tables, purity 0 / >= 1, mixed-case and unsupported builds; the same tables through '
+               'edge stream: inconsistently named tables (second, independent statement of C01_mixed_naming: the first row\'s style decides; deviations are tie-breaks), purity 0 / >= 1, mixed-case and unsupported builds; the same tables through '
                '`cnvkit.py call -m clonal` on written .cns files (6 quick / 50 thorough). '
                'non-trivial = mixture row with n >= 1, or a row next to a rounding/clipping boundary; distinct by (config,row) hash')
     if not ck.build_status.get('driver_ok'):
@@ -523,6 +572,11 @@ def run(ck, scratch):
         check_tables(ck, tables[i:i + step], consistent=True)
     # edge stream
     check_tables(ck, edge_tables(rng, 300 if quick else 5000), consistent=False)
+    # do_call end to end (shared stream): clonal / none / threshold x purity x baf none / column / variants
+    import calldo
+    calldo.corpus(ck, load_docall_corpus())
+    calldo.stream(ck, 180 if quick else 3000, (0.2, 0.65, 0.15), 'docall')
+    ck.rule += ' || ' + calldo.RULE
     # command line
     check_cli(ck, scratch, 6 if quick else 50, 1 if quick else 5)
     ck.unproved_remainder = [
@@ -530,6 +584,11 @@ def run(ck, scratch):
         'the harness supplies the library values to the model as exact rationals)',
         'rows whose exact absolute copy number lies within 1e-7 (relative) of a rounding boundary are counted float_ambiguous and '
         'their cn is not compared with the model',
+        'do_call end to end (Model/Baf.v do_call_model; C01_do_call_clonal, C01_do_call_rows): outside the model are the filters= argument '
+        '(C14), the content of variants.baf_by_ranges (C18), sort_columns, and a NaN log2 under method=clonal',
+        'source ties: _log2_ratio_to_absolute(_pure), _reference_copies_pure and log2_ratios (C01_source_log2_ratios, per element, masks as '
+        'booleans) are translated from the source on every run; get_as_dframe_and_set_reference_and_expect_copies (pandas .loc assignments) and '
+        'the cnary masks (chr_x_filter, parx_filter, ...) are tied by literal/statement pinning (tools/genspecs/c01.py) + correspondence only',
     ]
 
 
@@ -539,6 +598,13 @@ def replay(ck, body):
     if not cfg or not rows:
         print('replay: no case in file (%s)' % body.get('what'))
         return 0
+    if case.get('stream') == 'do_call':
+        import calldo
+        calldo.replay_case(ck, case)
+        bad = bool(ck.violations or ck.tie_breaks)
+        what = [v[1] for v in ck.violations] + [t[0] for t in ck.tie_breaks]
+        print('replay: %s' % (('still failing: %s' % what) if bad else 'passes now'))
+        return 1 if bad else 0
     full = []
     for r in rows:
         r = dict(r)
